@@ -19,6 +19,10 @@ CLAIMS = {
          "sync.WaitGroup semantics (Wait returns only at counter zero) and channel FIFO are assumed; that handlers call readyPacket only after the backing ReadAt/WriteAt returned is program order inside handlePacket / file* (checked by the C02 exactly-once obligations, not restated here).", "10 C14"),
  "C19": ("proof", "recvVersion: a nil error implies the first packet was a VERSION packet with version == 3 (all 2^32 versions, any type byte), decoding is total; SetSFTPExtensions: on error the configured list header and every element are unchanged (arbitrary-index formulation), on success the length matches, and the list under construction never aliases the live list; lookup returns an entry with the requested name; the extended-request switch leaves SpecificPacket nil exactly for unknown names (which the read-only gate treats as harmless and the handlers answer OP_UNSUPPORTED), and decodes known ones into a packet with the same id.",
          "Not proved: element-wise order of the configured list on success (quantified copy-on-growth of append is not decided by the installed solvers); 'advertised implies served' is covered through the switch/response contracts of C02/C07.", "10 C19"),
+ "C07": ("proof", "Both Serve loops and everything they reach (frame reader, makePacket, all request decoders, worker loops, handlePacket, every respond method, RequestServer.packetWorker, Request.call/open/opendir and the file* wrappers, handle tables, end-of-Serve sweeps) are under contract: every index/slice/nil/type-assertion/makeslice obligation is discharged for arbitrary packet bytes and arbitrary handler results allowed by the handler interfaces; at the hand-over to the workers it is proved that the packet decoded without error or names an unknown extension (a malformed packet is never dispatched), that every such packet is forwarded exactly once, that Serve returns only after the workers were joined and the sweep over the handle table completed, and that the packet manager is stopped only after working.Wait().",
+         "Liveness (no wedge, no goroutine left behind) is not decided by this technique; goroutine interference is not modelled; handler objects honour their interface contracts (ListAt count within the buffer, non-nil results on nil error); MaxFilelist in [1, 10^6]; slots of the controller queues below len are non-nil (assumed, see evidence). Found and fixed: Server.Serve dispatched malformed / unknown-type packets.", "10 C07"),
+ "C02": ("proof", "Ghost counters: one iteration of either worker loop takes one request and calls readyPacket exactly once (ready - taken constant), with the request's order id, a non-nil response whose id() equals the request's id() (also through the extended-packet wrapper, whose inner id is proved equal to the outer one by the decoder contract) and a response type from the legal set of the handler that produced it; the Serve loops forward every decodable packet exactly once; maybeSendPackets sends only when the order id of the head of the outgoing queue equals that of the head of the incoming queue, and sends that head.",
+         "sort.Slice keeps the queues sorted and channels are FIFO (assumed); order ids do not wrap; starvation is not decided. The sortedness invariant of the queues across controller iterations is not proved (quantified), only the head-match discipline.", "10 C02"),
 }
 
 def main():
